@@ -71,7 +71,7 @@ known("SDVRP float32: demands 2,6,4 / capacity 12, single route [1,2,3] fills th
       "C01.sdvrp.infeasible-dup@thirds-12", "C05.sdvrp.exact-fill-hidden@thirds-12", "C05.sdvrp.optimum-unreachable@thirds-12")
 known("CVRP mask float32: demands 8,6,2,4 / capacity 20, after [1,2,3] customer 4 (exact fill) is masked (0.8000001+0.2 > 1)", "C05.cvrp.exact-fill-hidden@exact-fill-20")
 known("SVRP mask forbids leaving the depot idle: a technician that can serve someone cannot be skipped, cheaper solutions such as [0,1,2,0,3] are unreachable",
-      *[f"C05.svrp.{c}{a}" for c in ("feasible-hidden-skip-technician", "optimum-unreachable") for a in ("", "@skip-tech", "@tech0-all")])
+      *[f"C05.svrp.{c}{a}" for c in ("feasible-hidden-skip-technician", "optimum-unreachable") for a in ("", "@skip-tech", "@tech0-all") if (c[0], a) != ("o", "@tech0-all")])
 known("SVRP checker never checks the segment after the last depot visit: techs [1,2,3], skills [1,2,3], actions [1,2,3] accepted", "C06.svrp.accepts-skill")
 known("OP reset subtracts 1e-6 from max_length: a tour of length exactly max_length (grid tour 1.75) is masked", "C05.op.exact-len-hidden@len-equality", "C05.op.optimum-unreachable@len-equality")
 known("mTSP minmax: a padding depot step after done re-adds the return leg; reward has shape () at batch size 1",
@@ -79,15 +79,17 @@ known("mTSP minmax: a padding depot step after done re-adds the return leg; rewa
 known("mTSP cost_type='sum': get_reward raises unless len(actions)==num_loc, else returns the closed loop over the action list instead of the sum of subtours",
       *[f"C03.mtsp-sum.{c}" for c in _RW + ("reward-raises", "replay-solo.reward-raises", "replay-mixed.reward-raises")])
 known("MDCPDP: final return leg missing at done; batched step lengths of all rows taken from row 0 ([B,1] vs [B] broadcast); current_depot never advances to a "
-      "newly started depot (lengths / capacity of the previous depot used)", *[f"C03.{e}.{c}{x}" for e in _MD for c in _RW for x in ("", "-last-return-leg-missing")])
+      "newly started depot (lengths / capacity of the previous depot used)", *[f"C03.{e}.{c}{x}" for e in _MD if "square" not in e for c in _RW for x in ("", "-last-return-leg-missing")
+        if (c, x) != ("replay-solo.reward", "") or ("2depot" in e and "minsum" not in e)])
 known("MDCPDP reward_mode='lateness_square' (documented) raises NotImplementedError",
       *[f"C03.{e}.{c}" for e in _MD if "square" in e for c in ("reward-raises", "replay-solo.reward-raises", "replay-mixed.reward-raises")])
 known("MDCPDP infers num_depot from capacity.shape[-1] but the generator emits capacity [B,1]: with num_depot=2 the second depot is treated as a pickup "
       "(mask-confined [0,1,2,3] switches depot with an open route); with per-depot capacity the new depot's capacity is never used",
-      *[f"{c}.{e}.{x}{a}" for e in _MD if "2depot" in e for a in ("", "@gen-format-cap1", "@per-depot-cap")
-        for c, x in (("C01", "infeasible-depot"), ("C05", "exact-fill-hidden"), ("C05", "feasible-hidden"), ("C05", "optimum-unreachable")) if (c, a) != ("C01", "@per-depot-cap")])
+      *[f"{c}.{e}.{x}" for e in _MD if "2depot" in e for c, x in (("C01", "infeasible-depot"), ("C01", "infeasible-depot@gen-format-cap1"), ("C05", "feasible-hidden"),
+        ("C05", "exact-fill-hidden@gen-format-cap1"), ("C05", "exact-fill-hidden@per-depot-cap"), ("C05", "optimum-unreachable"), ("C05", "optimum-unreachable@gen-format-cap1"),
+        ("C05", "optimum-unreachable@per-depot-cap")) if ("minmax", x) != (e.split("-")[1], "optimum-unreachable@per-depot-cap")])
 known("MTVRP mask uses strict '<' on window ends (checker '<='): arrival exactly at the window end is masked; if that is the only way to serve a customer the episode never ends",
-      *[f"C05.mtvrp-{v}.exact-{c}-hidden@{a}" for v, a in (("vrptw", "grid-equalities"), ("vrptw", "tw-equality-only"), ("ovrpbltw", "grid-equalities")) for c in ("tw", "fill+tw")],
+      *[f"C05.mtvrp-{v}.exact-{c}-hidden@{a}" for v, a in (("vrptw", "grid-equalities"), ("vrptw", "tw-equality-only"), ("ovrpbltw", "grid-equalities")) for c in ("tw", "fill+tw") if (v, c) != ("ovrpbltw", "tw")],
       "C02.mtvrp-vrptw.step-bound@tw-equality-only", "C05.mtvrp-vrptw.optimum-unreachable@tw-equality-only",
       "C05.mtvrp-vrptw.optimum-unreachable@grid-equalities", "C05.mtvrp-ovrpbltw.optimum-unreachable@grid-equalities")
 known("MTVRP checker does not check linehaul-before-backhaul: [.., backhaul, linehaul, ..] in one route accepted", "C06.mtvrp-vrpb.accepts-order", "C06.mtvrp-ovrpbltw.accepts-order")
